@@ -27,6 +27,7 @@ MUTANTS = {
             ('out-index', 'techlib.py', "                    pin_dict[n.name] = (o_idx, True)\n                    o_idx += 1", "                    pin_dict[n.name] = (o_idx, True)")],
     'C10': [('elim-reader-pin', 'circuit.py', "            in_line.reader_pin = out_reader_pin\n", "            in_line.reader_pin = in_line.reader_pin if out_reader_pin > 1 else out_reader_pin\n"),
             ('copy-implicit-pins', 'circuit.py', "            Line(c, (d, line.driver_pin), (r, line.reader_pin))", "            Line(c, d, r)"),
+            ('setstate-implicit-reader-pin', 'circuit.py', "            Line(self, (self.nodes[driver], driver_pin), (self.nodes[reader], reader_pin))", "            Line(self, (self.nodes[driver], driver_pin), self.nodes[reader])"),
             ('pickle-io-order', 'circuit.py', "        io_nodes = [n.index for n in self.io_nodes]", "        io_nodes = sorted(n.index for n in self.io_nodes)"),
             ('subst-input-fork-pin', 'circuit.py', "                ll.reader_pin = l.reader_pin\n", "                ll.reader_pin = 0\n")],
     'C03': [('ovl-parity', 'wave_sim.py', "                    overflows += 1\n                    previous_t = cbuf[z_mem + z_cur - 1, sim]\n                    z_cur -= 1", "                    overflows += 1\n                    previous_t = cbuf[z_mem + z_cur - 1, sim]"),
@@ -76,6 +77,16 @@ MUTANTS = {
             ('ic-rf-swapped', 'sdf.py', "            delays[line, :] = delvals", "            delays[line, :] = delvals[::-1]"),
             ('typ-max-swapped', 'sdf.py', "    def triple(args): return [float(a.value[:-1]) if len(a.value) > 1 else 0.0 for a in args]", "    def triple(args): return [float(a.value[:-1]) if len(a.value) > 1 else 0.0 for a in (args[0], args[2], args[1])] if len(args) == 3 else []"),
             ('zero-skip-min', 'sdf.py', "            if max(max(delvals)) == 0: continue", "            if min(max(delvals)) == 0: continue")],
+    'C09': [('indexlist-no-reindex', 'circuit.py', "            replacement.index = index\n", ""),
+            ('line-remove-no-squeeze', 'circuit.py', "                del self.driver.outs[self.driver_pin]\n                for i, l in enumerate(self.driver.outs): l.driver_pin = i", "                pass"),
+            ('node-remove-keeps-name', 'circuit.py', "            if self.kind == '__fork__':\n                del self.circuit.forks[self.name]", "            if self.kind == '__fork__':\n                pass"),
+            ('stats-line-count', 'circuit.py', "        stats['__line__'] = len(self.lines)", "        stats['__line__'] = len(self.lines) + len(self.forks) * 0 + (1 if len(self.lines) == 3 else 0)"),
+            ('elim-keeps-stale-pin', 'circuit.py', "            in_line.reader.ins[in_line.reader_pin] = in_line", "            in_line.reader.ins[in_line.reader_pin] = in_line if in_line.reader_pin == 0 else None")],
+    'C17': [('level-min', 'circuit.py', "                l = level[[l.driver.index for l in n.ins if l is not None]].max() + 1", "                l = level[[l.driver.index for l in n.ins if l is not None]].min() + 1"),
+            ('fanin-first-out-only', 'circuit.py', "                for line in n.outs:\n                    if line is not None:\n                        marks[n] |= marks[line.reader]", "                for line in n.outs[:1]:\n                    if line is not None:\n                        marks[n] |= marks[line.reader]"),
+            ('locs-string-sort', 'circuit.py', "                path = [m[1]] + [int(v) for v in re.split(r'[_\\[\\]]+', m[2]) if len(v) > 0]", "                path = [m[1]] + [v for v in re.split(r'[_\\[\\]]+', m[2]) if len(v) > 0]"),
+            ('rev-latch-not-cut', 'circuit.py', "                if visit_count[pred] == n_outs(pred) and 'dff' not in pred.kind.lower() and 'latch' not in pred.kind.lower():", "                if visit_count[pred] == n_outs(pred) and 'dff' not in pred.kind.lower():"),
+            ('line-order-skips-second-output', 'circuit.py', "        for n in self.topological_order():\n            for line in n.outs:\n                if line is not None:\n                    yield line", "        for n in self.topological_order():\n            for line in n.outs[:1] if 'dff' in n.kind.lower() else n.outs:\n                if line is not None:\n                    yield line")],
 }
 
 
